@@ -42,7 +42,7 @@ manifest = {
         "guard": "GCMPY_VERIF",
         "enable": "checks export GCMPY_VERIF=1 and import gcmpy from /repo's working tree (pure Python, nothing to build)",
         "baseline_off_cmd": "cd /repo && env -u GCMPY_VERIF /venv/bin/python -m pytest -ra -q -p no:cacheprovider --timeout=900 --continue-on-collection-errors",
-        "source_commits": [],
+        "source_commits": ["b616493"],
         "add_only": True,
     },
     "engines": [
